@@ -747,11 +747,13 @@ func (b *Builder) allowLeader(peer *metapb.Peer, ignoreClusterLimit bool) bool {
 // 3. add learner + remove learner.
 // 4. add learner + promote learner + remove voter.
 // 5. add voter + demote voter [+ remove learner].
-// 6. promote learner.
-// 7. demote voter.
-// 8. remove voter/learner.
-// 9. add voter/learner.
+// 6. add voter + remove learner, or add learner + remove voter (only if it is all that is left).
+// 7. promote learner.
+// 8. demote voter.
+// 9. remove voter/learner.
+// 10. add voter/learner.
 // Plan 1-5 (replace plans) do not change voter/learner count, so they have higher priority.
+// Plan 6 adds the replacement before it removes the old peer of the other role.
 type stepPlan struct {
 	leaderBeforeAdd    uint64 // leader before adding peer.
 	leaderBeforeRemove uint64 // leader before removing peer.
@@ -849,6 +851,28 @@ func (b *Builder) planReplace() stepPlan {
 		for _, j := range b.toAdd.IDs() {
 			if add := b.toAdd[j]; !core.IsLearner(add) {
 				best = b.planReplaceLeaders(best, stepPlan{demote: demote, add: add})
+			}
+		}
+	}
+	if !best.IsEmpty() {
+		return best
+	}
+	// add voter + remove learner OR add learner + remove voter.
+	// Only when it is all that is left to do: the replacement is added before the old peer is removed,
+	// and no later step can be left without a valid leader by the leader transfers of this plan.
+	if len(b.toAdd) != 1 || len(b.toRemove) != 1 || len(b.toPromote)+len(b.toDemote) != 0 {
+		return best
+	}
+	for _, i := range b.toAdd.IDs() {
+		add := b.toAdd[i]
+		if b.currentPeers[i] != nil {
+			// The store still holds the old peer, it should be removed first.
+			continue
+		}
+		for _, j := range b.toRemove.IDs() {
+			remove := b.toRemove[j]
+			if core.IsLearner(remove) != core.IsLearner(add) {
+				best = b.planReplaceLeaders(best, stepPlan{add: add, remove: remove})
 			}
 		}
 	}
